@@ -655,6 +655,10 @@ def check_cmaes(case):
     fed = 0  # completed trials handed to update() so far
     restarts = 0
     lost_buffer = False  # a restart happened while trials were buffered
+    # Bookkeeping for the bucket only: how many CMA generations a designer
+    # that forgets its buffer at every restart would have completed (the
+    # documented rule: one generation per pop_size completed trials).
+    buf_b = gens_b = 0
     nt_pending = False
     ctx = lambda: ('after_restart_with_buffered_trials' if lost_buffer
                    else 'no_buffered_trials_at_any_restart')
@@ -706,20 +710,28 @@ def check_cmaes(case):
           out.violate('cmaes/update_raises_in_B/%s/%s' % (_exc(e), ctx()),
                       'step %d: %r' % (i, e))
           return out
+      gens_a_before, gens_b_before = fed // pop_eff, gens_b
       fed += len(completed)
+      buf_b += len(completed)
+      gens_b += buf_b // pop_eff
+      buf_b %= pop_eff
       if fed >= pop_eff:
         out.cls('told_at_least_once')
       sa_, sb_ = state(a), state(b)
       if sa_ != sb_:
         # The states were equal after the previous update.  If a restart
-        # dropped buffered trials, the first visible effect is that the live
-        # instance completes a population (one more CMA generation) and the
-        # restarted one does not; anything else is a different defect.
+        # dropped buffered trials, the states first differ in the update in
+        # which the live instance or the forgetful one completes a population
+        # (they are made of different trials), and both generation counters
+        # are the ones the forgetful model predicts; anything else is a
+        # different defect.
         try:
           ga, gb = generation(sa_), generation(sb_)
         except Exception:  # pylint: disable=broad-except
           ga = gb = None
-        if lost_buffer and ga is not None and ga == gb + 1:
+        told_now = fed // pop_eff > gens_a_before or gens_b > gens_b_before
+        if (lost_buffer and told_now and ga == fed // pop_eff
+            and gb == gens_b):
           why = 'buffer_lost_at_restart'
         else:
           why = 'other/' + ctx()
@@ -752,11 +764,11 @@ def check_cmaes(case):
         out.cls('path_' + path)
         # documented behaviour of the designer: completed trials are
         # buffered until pop_size of them are available
-        if fed % pop_eff:
+        out.cls('restart_buffer_nonempty' if fed % pop_eff
+                else 'restart_buffer_empty')
+        if buf_b:
           lost_buffer = True
-          out.cls('restart_buffer_nonempty')
-        else:
-          out.cls('restart_buffer_empty')
+          buf_b = 0
         if fed:
           nt_pending = True
         sa_, sb_ = state(a), state(b)
